@@ -24,7 +24,26 @@ type c06Case struct {
 	Form string `json:"form,omitempty"` // var | destructure | fallback | plain
 	// twice / nested / layout
 	Var string `json:"var,omitempty"`
+	// After: a render made before the case's own render, on another engine (process-wide state)
+	After string `json:"after,omitempty"`
 }
+
+// c06Polluters: pages rendered before a case. They hand slot content of every slot name the
+// cases use to components and layouts in every way the engine knows, including slots a page
+// passes on to its layout and to components the layout includes.
+var c06Polluters = map[string]Files{
+	"layout-passes-slots-to-component": {
+		"page.vuego":      "---\nlayout: l\n---\n<template #header>POLLUTED-H</template><template #footer>POLLUTED-F</template><template #inner>POLLUTED-I</template><template #x>POLLUTED-X</template><template #side>POLLUTED-S</template><template #row>POLLUTED-R</template><template v-slot>POLLUTED-D</template><p>body</p>",
+		"layouts/l.vuego": "<body><template include=\"c.vuego\"></template>\n<template include=\"c.vuego\">\n</template><aside><slot name=\"side\">LFB</slot></aside><main v-html=\"content\"></main></body>",
+		"c.vuego":         `<div><slot name="header">h</slot><slot>d</slot><slot name="footer">f</slot><slot name="inner">i</slot><slot name="x">x</slot><slot name="row">r</slot></div>`,
+	},
+	"component-with-all-slots": {
+		"page.vuego": `<template include="c.vuego"><template #header>POLLUTED-H</template><template #footer>POLLUTED-F</template><template #inner>POLLUTED-I</template><template #x>POLLUTED-X</template><template #row="sp">POLLUTED-R{{ sp.item }}</template>POLLUTED-D</template><template include="c.vuego"></template>`,
+		"c.vuego":    `<div><slot name="header">h</slot><slot>d</slot><slot name="footer">f</slot><slot name="inner">i</slot><slot name="x">x</slot><ul><li v-for="q in two"><slot name="row" :item="q">r</slot></li></ul></div>`,
+	},
+}
+
+var c06PolluterNames = []string{"layout-passes-slots-to-component", "component-with-all-slots"}
 
 func (c *c06Case) Key() string { return core.KeyOf(c) }
 
@@ -278,6 +297,14 @@ func (c *c06Case) Run(ctx *core.Ctx) {
 		expectText("aside", []string{want}, "layout-slot")
 		trig = c.Var + "/" + c.Kind
 	}
+	if c.After != "" {
+		ctx.Eval(1)
+		if _, perr := renderPage(c06Polluters[c.After], "page.vuego", map[string]any{"two": []int{1, 2}}); perr != nil {
+			ctx.Violation("render-error", "polluter", c.After, perr.Error())
+			return
+		}
+		trig += "/after-" + c.After
+	}
 	ctx.Eval(1)
 	out, err := renderPage(files, "page.vuego", data)
 	if err != nil {
@@ -286,6 +313,9 @@ func (c *c06Case) Run(ctx *core.Ctx) {
 	}
 	ctx.Outcome(out)
 	nodes := htmlcmp.Parse(out)
+	if strings.Contains(out, "POLLUTED") {
+		ctx.Violation("slot-content", c.Part+"/content-of-an-earlier-render", trig, fmt.Sprintf("%s out %q", files, clip(out, 500)))
+	}
 	for _, chk := range checks {
 		if where, detail := chk(nodes); where != "" {
 			ctx.Violation("slot-content", c.Part+"/"+where, trig, fmt.Sprintf("%s\n%s out %q", detail, files, clip(out, 500)))
@@ -298,12 +328,22 @@ func init() {
 		ID:        "C06",
 		Level:     "exploration",
 		CPUBudget: 10,
-		Rule: "component with header/default/footer slots (fallback on two of them) used by includers supplying every subset in every form (v-slot:, #, plain children, v-slot, v-slot:default) x 4 content kinds (static, {{ }} of an includer variable, :attr, text) x 4 instance arrangements; scoped slots (4 components incl. slot in v-for) x {named var, destructured, fallback, plain}; same slot used twice; nested components (5 arrangements); layout-inherited slots. " +
+		Rule: "component with header/default/footer slots (fallback on two of them) used by includers supplying every subset in every form (v-slot:, #, plain children, v-slot, v-slot:default) x 4 content kinds (static, {{ }} of an includer variable, :attr, text) x 4 instance arrangements; scoped slots (4 components incl. slot in v-for) x {named var, destructured, fallback, plain}; same slot used twice; nested components (5 arrangements); layout-inherited slots; " +
+			"every case also right after a render (on another engine) that passes content for all those slot names to a component and through a layout to the components the layout includes; " +
 			"oracle: expected normalised text (and bound attributes) at every slot position. non-trivial = all",
 		Bounds:      map[string]string{"quick": "full catalogue product, nesting depth 2, <=2 instances", "thorough": "same"},
 		Assumptions: []string{"whitespace around spliced nodes is insignificant"},
 		Decode:      core.DecodeAs[c06Case](),
-		Enumerate: func(tier string, emit func(core.Case)) {
+		Enumerate: func(tier string, emit0 func(core.Case)) {
+			emit := func(cs core.Case) {
+				emit0(cs)
+				c := cs.(*c06Case)
+				for _, pol := range c06PolluterNames {
+					d := *c
+					d.After = pol
+					emit0(&d)
+				}
+			}
 			for _, h := range []string{"none", "vslot", "hash"} {
 				for _, d := range []string{"none", "plain", "vslot", "vslotdefault", "hash"} {
 					for _, f := range []string{"none", "vslot", "hash"} {
